@@ -27,8 +27,13 @@ def tier_params(tier):
     return {"cases": 170, "schedules": 20, "snippets": 45, "wall_budget_s": 600}
 
 
+SIMTYPES = "@SIMTYPES@"
+
+
 def prepare(repo):
     """Load the corpus from the working tree (before workers fork)."""
+    from ..qtworld import build as qtbuild
+    qtbuild.setup()     # synthetic classes: documents of the World-B generator widen the construct coverage
     widegen.load(os.path.join(repo, "contrib/metatypes"))
     ex = {}
     exroot = os.path.join(repo, "examples")
@@ -74,6 +79,7 @@ def gen_case(rng, params, index):
     exdocs = sorted(ex)
     files = {}
     no_dyn = False
+    extra_types = []
     if index < len(exdocs):
         name = "example:" + exdocs[index]
         for rel, text in ex.items():
@@ -91,11 +97,24 @@ def gen_case(rng, params, index):
             files["proj/" + source] = body
             no_dyn = rng.chance(0.5)
         else:
-            kind = rng.weighted([(5, "wide"), (3, "multi-error"), (2, "small")])
+            kind = rng.weighted([(5, "wide"), (3, "multi-error"), (1, "small"), (4, "qt-general"), (2, "qt-everything"), (1, "qt-observers"), (1, "qt-names")])
+            extra_types = []
             if kind == "wide":
                 text = widegen.gen_wide(rng)
             elif kind == "multi-error":
                 text = widegen.gen_wide(rng, n_errors=rng.randint(3, 8))
+            elif kind.startswith("qt-"):
+                from ..qtworld import gen as qtgen
+                extra_types = [SIMTYPES]
+                if kind == "qt-general":
+                    text = qtgen.Gen(rng.fork("qt")).document(type_name="Wide", handler_p=0.7, max_handlers=3)["qml"]
+                elif kind == "qt-everything":
+                    # every include-triggering and verbatim-printed construct in one document
+                    text = qtgen.doc_operators(rng.fork("qt"), "Wide", everything=True)["qml"]
+                elif kind == "qt-observers":
+                    text = qtgen.doc_observers(rng.fork("qt"), "Wide")["qml"]
+                else:
+                    text = qtgen.doc_names(rng.fork("qt"), "Wide")["qml"]
             else:
                 text = docs.render(docs.gen_doc(rng, max_widgets=7))[0]
             name = "generated:" + kind
@@ -115,7 +134,12 @@ def gen_case(rng, params, index):
         after = rng.sample([c for c in comps if c not in before], rng.weighted([(7, 0), (3, 1)]))
         scheds.append({"hash_seed": rng.randint(2, 1 << 40), "dirent_seed": rng.randint(2, 1 << 40), "env_pad": rng.randint(0, 4000),
                        "before": before, "after": after, "dup": rng.chance(0.12), "spell": rng.choice([source, "./" + source])})
-    return {"kind": "c08", "name": name, "files": files, "source": source, "no_dyn": no_dyn, "schedules": scheds}
+    return {"kind": "c08", "name": name, "files": files, "source": source, "no_dyn": no_dyn, "schedules": scheds, "extra_types": extra_types}
+
+
+def _simtypes():
+    from ..qtworld import build as qtbuild
+    return qtbuild.sim_metatypes()
 
 
 def attribute(stderr, label):
@@ -161,6 +185,7 @@ def run_case(case, env):
     for k, sc in enumerate(case["schedules"]):
         srcs = list(sc["before"]) + [sc["spell"]] + ([sc["spell"] if sc["spell"] != source else "./" + source] if sc["dup"] else []) + list(sc["after"])
         step = {"op": "GEN", "sources": srcs, "O": "out", "no_dyn": case["no_dyn"], "no_lower": False,
+                "extra_types": [_simtypes() if x == SIMTYPES else x for x in case.get("extra_types", [])],
                 "hash_seed": sc["hash_seed"], "dirent_seed": sc["dirent_seed"], "env_pad": sc["env_pad"]}
         res = sb.run(step)
         stats["runs"] += 1
